@@ -221,7 +221,8 @@ func (w *world) waiter(t *simcore.Task) {
 			}
 		}
 		sort.Slice(needs, func(a, b int) bool { return needs[a].id < needs[b].id })
-		w.S.Logf("WaitUntilReconciled(r%d, %d) invoked (table revision %d, timeout %v)", rc.idx, rev, cur, timeout)
+		w.S.Logf("WaitUntilReconciled(r%d) invoked (timeout %v)", rc.idx, timeout)
+		w.S.Note("requested revision %d, table revision %d", rev, cur)
 		got, lw, err := rc.rec.WaitUntilReconciled(ctx, rev)
 		ctxErr := ctx.Err()
 		cancel()
@@ -229,7 +230,8 @@ func (w *world) waiter(t *simcore.Task) {
 		if w.S.Failed() {
 			return
 		}
-		w.S.Logf("WaitUntilReconciled -> revision %d lowWatermark %d err=%v after %v", got, lw, err, w.S.Now()-invokedAt)
+		w.S.Logf("WaitUntilReconciled returned err=%v", err)
+		w.S.Note("revision %d lowWatermark %d after %v", got, lw, w.S.Now()-invokedAt)
 		w.progress++
 		if err != nil {
 			if ctxErr == nil || err != ctxErr {
